@@ -11,6 +11,7 @@
   splits a sum into chunks.
 -/
 import PCV.Proofs.StreamKZGVerify
+import PCV.Proofs.StreamKZGExtract
 import PCV.Proofs.FoldCommit
 import PCV.Props.Examples
 
@@ -205,6 +206,56 @@ example : verifyMultiPoints (⟨[3, 21, 46], [5, 35, 43, 99]⟩ : VK K) [98, 27]
 example : verifyMultiPoints (⟨[3, 21, 46], [5, 35, 43, 99]⟩ : VK K) [98, 27] [2, 3, 10]
     [[19, 8, 34], [89, 70, 16]] 65 13 = .ok false := by decide +kernel
 example : ([2, 3, 10] : List K).Nodup := by decide
+
+/-! ### multi-point verifier against ANY proof element an algebraic prover can form -/
+
+/-- **Streaming KZG, algebraic forger against `verify_multi_points`.**  Honest commitments, a well-formed
+key, distinct points, ANY claimed table of the right shape, and ANY proof element of the form
+`π = Σ aᵢ·(τⁱg)` (every element a prover can build from the published key): acceptance is the single
+relation `Σ ηⁱpᵢ(τ) − I_η(τ) − a(τ)·Z(τ) = 0`, whose left-hand side, as a polynomial in the trapdoor, takes
+at the `j`-th evaluation point the η-combination of the errors of column `j` of the claimed table.  So if
+that combined error is non-zero, the accepted forgery exhibits a non-zero polynomial of known coefficients
+with the trapdoor as a root. -/
+theorem multi_points_algebraic_forgery_reveals_trapdoor (g g2 τ : F) (a' b : Nat) (ps : List (List F))
+    (pts : List F) (evals : List (List F)) (a : List F) (η : F) (hg : g ≠ 0) (hg2 : g2 ≠ 0)
+    (hnd : pts.Nodup) (ha : pts.length ≤ a') (hb : pts.length + 1 ≤ b) (hev : evals ≠ [])
+    (hcl : ps.length = evals.length) (hrows : ∀ e ∈ evals, e.length = pts.length)
+    (hacc : verifyMultiPoints ⟨PCV.powers g τ a', PCV.powers g2 τ b⟩
+      (ps.map (fun p => g * evalPoly p τ)) pts evals (g * evalPoly a τ) η = .ok true) :
+    forgeFun ps pts evals a η τ = 0 ∧
+      ∀ j (hj : j < pts.length), forgeFun ps pts evals a η pts[j] = colErr ps evals η pts[j] j :=
+  ⟨(SKZG.multi_forgery_root g g2 τ a' b ps pts evals a η hg hg2 hnd ha hb hev hcl hrows).1 hacc,
+   fun j hj => SKZG.forgeFun_at_point ps pts evals a η hnd hrows j hj⟩
+
+/-- … counted over trapdoors: for fixed polynomials (length ≤ `n`), points, table, challenge and forger
+coefficients with a non-zero combined error in some column, all but at most
+`max(n, m, |a| + m + 1) − 1` trapdoors refuse the forgery (`m` points). -/
+theorem multi_points_algebraic_forgery_exceptional_set (ps : List (List F)) (pts : List F)
+    (evals : List (List F)) (a : List F) (η : F) (n : Nat) (hps : ∀ p ∈ ps, p.length ≤ n)
+    (hnd : pts.Nodup) (hev : evals ≠ []) (hcl : ps.length = evals.length)
+    (hrows : ∀ e ∈ evals, e.length = pts.length) (j : Nat) (hj : j < pts.length)
+    (herr : colErr ps evals η pts[j] j ≠ 0) :
+    ∃ S : Finset F, S.card ≤ max (max n pts.length) (a.length + (pts.length + 1)) - 1 ∧
+      ∀ (g g2 τ : F) (a' b : Nat), g ≠ 0 → g2 ≠ 0 → pts.length ≤ a' → pts.length + 1 ≤ b → τ ∉ S →
+        verifyMultiPoints ⟨PCV.powers g τ a', PCV.powers g2 τ b⟩ (ps.map (fun p => g * evalPoly p τ))
+          pts evals (g * evalPoly a τ) η ≠ .ok true :=
+  SKZG.multi_forgery_exceptional_set ps pts evals a η n hps hnd hev hcl hrows j hj herr
+
+/-- … and counted over batching challenges: ONE false entry (polynomial `i`, column `j`) makes the combined
+error of that column non-zero for all but at most `(number of polynomials) − 1` values of `η`, however the
+other entries of the table were chosen (errors planted to cancel included). -/
+theorem multi_points_false_entry_survives_batching (ps : List (List F)) (evals : List (List F)) (z : F)
+    (j : Nat) (hcl : ps.length = evals.length) (i : Nat) (hi : i < ps.length)
+    (hfalse : evalPoly (ps.getD i []) z ≠ (evals.getD i []).getD j 0) :
+    ∃ S : Finset F, S.card ≤ ps.length - 1 ∧ ∀ η, η ∉ S → colErr ps evals η z j ≠ 0 :=
+  SKZG.colErr_exceptional_eta ps evals z j hcl i hi hfalse
+
+-- non-vacuity: two polynomials, the table of the example above with one entry moved, η = 13:
+-- the combined error of column 1 is non-zero
+example : colErr ([[4, 9, 2, 77, 5], [1, 0, 6, 8, 0, 0]] : List (List K)) [[19, 8, 34], [89, 70, 16]] 13 3 1
+    = 88 := by decide
+example : evalPoly (([[4, 9, 2, 77, 5], [1, 0, 6, 8, 0, 0]] : List (List K)).getD 1 []) 3
+    ≠ (([[19, 8, 34], [89, 70, 16]] : List (List K)).getD 1 []).getD 1 0 := by decide
 
 /-! ### folded-polynomial iterators -/
 
